@@ -536,6 +536,8 @@ func main() {
 		workerMain()
 	case "single":
 		singleMain()
+	case "instrument":
+		instrumentMain()
 	default:
 		masterMain()
 	}
